@@ -125,6 +125,7 @@ func (c *Collection) StartDCPFeed(
 		feed.events.push(&sgbucket.FeedEvent{Opcode: sgbucket.FeedOpEndBackfill})
 	}
 
+	verifPoint("feed.backfilled", feed.args.ID)
 	if args.Dump {
 		feed.events.push(nil) // push an eof
 	} else {
